@@ -502,6 +502,25 @@ def reachable_nodes(fi, depth=2):
   return nodes
 
 
+def guard_kind(fn, node, core):
+  """How the statement `node` is guarded with respect to a core condition: core(test, polarity) recognises it.
+  ('exact', None): some condition on the path *is* the core condition; ('wider', [other disjuncts]): the core condition appears only
+  as one disjunct of a positive `or` (the statement also runs when another disjunct holds); ('none', None) otherwise."""
+  def strip(t, pol):
+    while isinstance(t, ast.UnaryOp) and isinstance(t.op, ast.Not):
+      t, pol = t.operand, not pol
+    return t, pol
+  conds = [strip(t, p) for t, p in path_conditions(fn, node)]
+  if any(core(t, p) for t, p in conds):
+    return ('exact', None)
+  for t, p in conds:
+    if p and isinstance(t, ast.BoolOp) and isinstance(t.op, ast.Or):
+      parts = [strip(v, True) for v in t.values]
+      if any(core(v, q) for v, q in parts):
+        return ('wider', [v for v, q in parts if not core(v, q)])
+  return ('none', None)
+
+
 def exits_missing(fn, spred):
   """Like exits_missing_call, for a predicate on any node (a store, a statement): the normal exits of `fn` reachable without a
   node satisfying spred having been executed."""
